@@ -2,6 +2,7 @@ package main
 
 import (
 	"fmt"
+	"go/token"
 	"go/types"
 	"regexp"
 	"sort"
@@ -30,7 +31,9 @@ func runC09(c *Ctx) {
 	c09R3(c)
 	indexResolution(c, "R4")
 	memberResolutionOrder(c, "R8")
+	assignmentTargetLocation(c, "R15")
 	c.shared("R13", "C06/R3", "`a op= b` means `a = a op b` with b the whole right-hand expression: the assignment parselets parse their right side from the assignment level, and the rewriter builds left = left OP right from it", keyHas("rbp", "desugar", "statement-level-expression"), runC06)
+	c.shared("R16", "C16/R3", "scalars are copied on insertion into containers: pluck stores a cell of its own per key (a copy of the member's value, or null), never the source object's cell", keyHas("pluck"), runC16)
 	c.shared("R14", "C14/R4", "an assignment through `$` changes the root it was made through only: every selector's root is the result of evaluating that selector on a conversion of the input value made for it (not on a tree another selector's rules have already assigned into)", keyHas("root-list-contents"), func(s *Ctx) { rootsPerValue(s, "R4") })
 	c.shared("R12", "C10/R6", "an index assignment changes exactly the addressed location: every evaluation of a literal builds cells of its own — nothing evaluated earlier is remembered in the evaluator or in the syntax tree and handed out again", keyHas("evaluator-state", "syntax-tree-store", "interpreter-state"), func(s *Ctx) { interpreterState(s, "R6") })
 	c.shared("R11", "C08/R4", "assigning to a parameter changes the callee's own cell only: every declared parameter — supplied or not — is bound to a fresh cell in the callee's frame, so the name cannot resolve to a variable of a calling frame", nil, c08R4)
@@ -452,6 +455,23 @@ func c09R6(c *Ctx) {
 	for _, rl := range F.At(rec.Block()).Rels() {
 		g[p.Render(rl.x)+" "+rl.op.String()+" "+p.Render(rl.y)] = true
 	}
+	// … and only when it does not exist by now: both targets of `o.a.x = o.a.y = 1` are evaluated while
+	// o.a is missing; the inner assignment creates it, the outer one must add to it, not create it again
+	// (F-28). The creation is reached only where a fresh look at what stands at the parent's place
+	// (a call or lookup on the pending parent) found nothing.
+	relooked := false
+	for _, rl := range F.At(rec.Block()).Rels() {
+		if rl.op != relEQ || !isNilConst(rl.y) {
+			continue
+		}
+		switch rl.x.(type) {
+		case *ssa.Call, *ssa.Extract, *ssa.Lookup, *ssa.Phi:
+			if strings.Contains(p.Render(rl.x), "specObj.Value.ParentObj") {
+				relooked = true
+			}
+		}
+	}
+	c.check(relooked, "R6", "parent-not-replaced", p.InstrPos(rec), "a pending parent is created only where a fresh look found that it still does not exist", "the pending parent is created without looking whether it exists by now: in `o.a.x = o.a.y = 1` the inner assignment creates o.a, the outer one creates it again and the member stored first is lost")
 	c.check(g["specObj.Value.ParentObj.Tag == ValueNil"], "R6", "recursion-guard", p.InstrPos(rec), "the parent is materialised only when it is itself pending", "the recursive materialisation is not guarded by `parent is a pending (nil) value`")
 }
 
@@ -664,4 +684,127 @@ func paramSubst(p *Program, owner, g *ssa.Function, abbrev func(string) string) 
 		}
 		return s
 	}
+}
+
+// assignmentTargetLocation: a member or index target of an assignment is the cell GetMember hands
+// back (a missing member comes back as nil and is created on assignment). The assignment stores
+// into that cell, so the cell must be the container's own — loaded from v.Array[i] or (*v.Obj)[key].
+// A cell made for the occasion (the bound copy of a prototype method, the one-character string made
+// for s[i]) is nobody's member: the store succeeds and is lost, silently.
+func assignmentTargetLocation(c *Ctx, rule string) {
+	p := c.P
+	c.note("%s assignment-target-location: every non-nil cell a success return of GetMember (and the helpers split off it) hands back is loaded from the receiver's own storage (v.Array[i], (*v.Obj)[key]); a cell built for the occasion is reported per receiver kind — an assignment through it changes nothing and raises nothing.", rule)
+	gm := p.LangFunc("(*Value).GetMember")
+	if gm == nil {
+		c.undecided(rule, "GetMember", "", "anchor not found")
+		return
+	}
+	ek := EKOf(p)
+	ms := p.maySetOf(gm, "v.Tag", valueTagNames(p))
+	type armFn struct {
+		fn   *ssa.Function
+		tags func(b *ssa.BasicBlock) []string
+	}
+	arms := []armFn{{gm, func(b *ssa.BasicBlock) []string { return ms.At(b) }}}
+	for _, call := range callsIn(gm) {
+		h := call.Common().StaticCallee()
+		if h != nil && h != gm && p.inClusterOf(gm, h) && !staticCalleeIs(call, "(*lang.Value).protoMember") {
+			at := ms.At(call.Block())
+			arms = append(arms, armFn{h, func(*ssa.BasicBlock) []string { return at }})
+		}
+	}
+	kindOf := func(tags []string) string {
+		if len(tags) == 1 {
+			return tags[0]
+		}
+		for _, t := range tags {
+			if t == "ValueArray" || t == "ValueObj" || t == "ValueStr" {
+				return strings.Join(tags, ",")
+			}
+		}
+		return "other kinds"
+	}
+	nOwn, nFresh := 0, 0
+	reported := map[string]bool{}
+	for _, arm := range arms {
+		F := FactsOf(arm.fn)
+		for _, r := range returnsOf(arm.fn) {
+			res := effectiveResults(r)
+			if len(res) != 2 || !ek.KindsAt(res[1], F.At(r.Block())).Has(KNil) {
+				continue
+			}
+			kind := kindOf(arm.tags(r.Block()))
+			seen := map[ssa.Value]bool{}
+			var visit func(v ssa.Value)
+			visit = func(v ssa.Value) {
+				if seen[v] {
+					return
+				}
+				seen[v] = true
+				if isNilConst(v) {
+					return
+				}
+				switch x := v.(type) {
+				case *ssa.Phi:
+					for _, e := range x.Edges {
+						visit(e)
+					}
+					return
+				case *ssa.UnOp:
+					if x.Op == token.MUL {
+						if ia, ok := x.X.(*ssa.IndexAddr); ok && strings.Contains(p.RenderShort(ia.X), "v.Array") {
+							nOwn++
+							return
+						}
+					}
+				case *ssa.Lookup:
+					if strings.Contains(p.RenderShort(x.X), "v.Obj") {
+						nOwn++
+						return
+					}
+				case *ssa.Extract:
+					if lk, ok := x.Tuple.(*ssa.Lookup); ok && x.Index == 0 && strings.Contains(p.RenderShort(lk.X), "v.Obj") {
+						nOwn++
+						return
+					}
+					if call, ok := x.Tuple.(*ssa.Call); ok && x.Index == 0 {
+						if staticCalleeIs(call, "(*lang.Value).protoMember") {
+							nFresh++
+							key := "assignment-target-location " + kind + " prototype member"
+							if !reported[key] {
+								reported[key] = true
+								c.violated(rule, key, p.InstrPos(r), "for a receiver of kind "+kind+" GetMember hands back the bound copy of a prototype method where the receiver has no such member of its own: an assignment to that name stores into the copy and is lost without an error")
+							}
+							return
+						}
+						if g := call.Call.StaticCallee(); g != nil && p.inClusterOf(gm, g) {
+							return // a helper of GetMember: its own returns are classified as an arm
+						}
+					}
+				case *ssa.Call:
+					if staticCalleeIs(x, "lang.NewCell") {
+						nFresh++
+						key := "assignment-target-location " + kind + " fresh cell"
+						if !reported[key] {
+							reported[key] = true
+							c.violated(rule, key, p.InstrPos(r), "for a receiver of kind "+kind+" GetMember hands back a cell made for the occasion ("+p.RenderShort(x)+"): an assignment through it is lost without an error")
+						}
+						return
+					}
+				case *ssa.Alloc:
+					nFresh++
+					key := "assignment-target-location " + kind + " fresh cell"
+					if !reported[key] {
+						reported[key] = true
+						c.violated(rule, key, p.InstrPos(r), "for a receiver of kind "+kind+" GetMember hands back a cell made for the occasion: an assignment through it is lost without an error")
+					}
+					return
+				}
+				c.undecided(rule, "assignment-target-location "+kind+" "+p.RenderShort(v), p.InstrPos(r), "the provenance of a cell GetMember returns is not recognised")
+			}
+			// `return v.protoMember(member)`: both results of one call
+			visit(res[0])
+		}
+	}
+	c.check(nOwn >= 2, rule, "assignment-target-location own members", p.Pos(gm.Pos()), fmt.Sprintf("%d returns hand back the receiver's own cell (array element, object member)", nOwn), fmt.Sprintf("only %d returns of GetMember hand back a cell of the receiver's own storage; the array and the object arm are expected", nOwn))
 }
